@@ -54,10 +54,11 @@ CATALOGUE = [
     # unmodelled options whose value is ATTACHED (one argument): nothing after them may be swallowed
     ["-xc++"], ["-MFx.d"], ["-MTx.o"], ["-MQt"], ["-xHost"], ["-G"], ["-Wp,-MD,x.d"], ["-Wno-unused"], ["-std=gnu11"],
 ]
-ATTACHED = {0: ["A=1", "X=a=b-c", 'S="q r"'], 1: ["/p/q-r", "inc dir", "../i"], 2: ["/opt/my-lib/sys", "s y", "./s"],
-            3: ["cfg-host.h", "pre fix.h", "../g.h"]}
-DETACHED = {0: ["B", "Y=c=d", "T='u v'"], 1: ["/a/b", "my inc", "i-n-c"], 2: ["/usr/sys", "s-y s", "sys=1"],
-            3: ["g.h", "a b.h", "pre-fix.h"]}
+# (the fourth value of every list contains the spelling of ANOTHER modelled flag: nothing may be searched for inside a value)
+ATTACHED = {0: ["A=1", "X=a=b-c", 'S="q r"', "P=/lib/x-includes"], 1: ["/p/q-r", "inc dir", "../i", "/opt/my-includes"],
+            2: ["/opt/my-lib/sys", "s y", "./s", "/sys-isystems/v1"], 3: ["cfg-host.h", "pre fix.h", "../g.h", "pre-includes.h"]}
+DETACHED = {0: ["B", "Y=c=d", "T='u v'", "Q=a-isystemb"], 1: ["/a/b", "my inc", "i-n-c", "third-party-includes/v2"],
+            2: ["/usr/sys", "s-y s", "sys=1", "/x-includey"], 3: ["g.h", "a b.h", "pre-fix.h", "a-Dinc-Ix.h"]}
 FLAG = {0: "-D", 1: "-I", 2: "-isystem", 3: "-include"}
 COMPILER = "vp-unknown-cc"
 KNOWN_CC = {"gcc": ([], ["default"]), "nvcc": (["__NVCC__", "__CUDACC__"], ["default", "sm_70"]),
@@ -125,10 +126,10 @@ def h_args(k1: int, a1: bool, k2: int, a2: bool, k3: int, a3: bool, v1: str, v2:
             argv += CATALOGUE[j]
         else:
             if at[i]:
-                val = ATTACHED[kind][(i + P["flag"]) % 3]
+                val = ATTACHED[kind][(i + P["flag"]) % 4]
                 argv.append(FLAG[kind] + val)
             else:
-                val = DETACHED[kind][(i + P["flag"]) % 3]
+                val = DETACHED[kind][(i + P["flag"]) % 4]
                 argv += [FLAG[kind], val]
             exp[kind].append(val)
     if pos == n:
